@@ -4929,7 +4929,7 @@ struct gjSpecCharId_info {
 };
 struct gjSpecCharId_info gjSpecCharIdTable[];
 
-CString gjCharIds[CHAR_MAX];
+CString gjCharIds[UCHAR_MAX + 1];
 #define STDCHAR_MAX 127
 
 local void
@@ -4984,7 +4984,6 @@ gj0NameFrString(String fmName)
 	p = fmName;
 	while (*p != 0) {
 		CString repl;
-		assert(*p >= 0 && *p < CHAR_MAX);
 		repl = gjCharIds[(unsigned char)*p];
 		if (repl != 0)
 			flg = true;
@@ -4997,7 +4996,6 @@ gj0NameFrString(String fmName)
 	bufNeed(buf, strlen(fmName));
 	while (*p != 0) {
 		CString repl;
-		assert(*p >= 0 && *p < CHAR_MAX);
 		repl = gjCharIds[(unsigned char)*p];
 		if (!repl) {
 			bufAdd1(buf, *p);
